@@ -961,6 +961,8 @@ pub fn run_pool_case(id: u64, rng: &mut Rng, _thorough: bool, hist: &mut Hist) -
                 if let Some(old) = qs.get(&qid) {
                     if !old.returned {
                         hist.add("pool:live_query_overwritten_after_id_wrap");
+                        // (a wrapping counter gives a handful of lookups distinct ids wherever it starts)
+                        failures.push(("C09".into(), "a new lookup was given the id of a lookup that is still running: the running lookup is dropped without ever handing its result to the caller".into(), n));
                     }
                 }
                 qs.insert(qid, PQ { mon: Mon::new(predicate, par, nres, target, &initial), gen: g, emitted: vec![], done: vec![], pt, returned: false });
